@@ -296,7 +296,7 @@ QUICK_FIX = ["cl/identity/5", "chunked/identity/5/1-2", "close/identity/5", "cl/
 def JOBS(tier):
     quick = tier == "quick"
     jobs = []
-    t = 170 if quick else 1500
+    t = 170 if quick else 900
     allk = [K_READN, K_READ1N, K_READINTO, K_READ0, K_READ1, K_READALL]
     for fx in FIXTURES:
         if quick and fx.name not in QUICK_FIX:
@@ -324,7 +324,7 @@ def JOBS(tier):
             for ka in allk:
                 jobs.append({"func": "c12_script", "timeout": t, "path_timeout": 60, "samples": 1,
                              "part": dict(base, ncalls=2, ncalls_min=2, kinds1=[ka], kinds=allk, segs=[1, W + 1],
-                                          ns=ns if not quick else sorted({1, 2, L - 1, L + 1}), ns2=sorted({1, 3, L + 1}),
+                                          ns=sorted({1, 2, 3, L - 1, L, L + 1}) if not quick else sorted({1, 2, L - 1, L + 1}), ns2=sorted({1, 3, L + 1}),
                                           ms=[1, 2] if not quick else [2])})
         if not quick and 0 < L <= 5:
             for ka in allk:
